@@ -1019,7 +1019,8 @@ def run_order(ctx, known):
             continue
         reported.add(key)
         small = h
-        if kind in ("raft", "solo") and len(reported) <= 3:
+        bulky = any(op[0] == "ents" and op[1] > 200 for op in h["ops"])    # judging a >1000-entry log takes ~15 s per candidate
+        if kind in ("raft", "solo") and len(reported) <= 3 and not bulky:
             small = shrink(exe, h, flags, lambda w, v=v: w[0] == v[0] and (v[0] != 2 or w[1] % 10 == v[1] % 10))
         o2, _ = run_order_batch(exe, [small])
         v2, _ = judge_order([small], o2, flags) if o2 else (None, "")
